@@ -50,18 +50,28 @@ E2mu == Enum("array", -1, FALSE, <<Variant(0, "map", -1, "named", <<F(0, TRUE, -
 \* the other way round: a map-encoded enum whose unit variant is array-encoded
 E2a  == Enum("map", -1, FALSE, <<Variant(0, "array", -1, "unit", <<>>), Variant(1, "map", -1, "tuple", <<F(0, FALSE, -1, "u8")>>)>>)
 E2au == Enum("map", -1, FALSE, <<Variant(0, "array", -1, "tuple", <<F(0, TRUE, -1, "u8")>>), Variant(1, "map", -1, "tuple", <<F(0, FALSE, -1, "u8")>>)>>)
+\* a regular (not index_only) enum all of whose variants are unit variants - on the wire still [index, []] - and a later version of it
+EU  == Enum("array", -1, FALSE, <<Variant(0, "array", -1, "unit", <<>>), Variant(1, "array", -1, "unit", <<>>)>>)
+EUx == Enum("array", -1, FALSE, <<Variant(0, "array", -1, "unit", <<>>), Variant(1, "array", -1, "unit", <<>>), Variant(2, "array", -1, "unit", <<>>),
+                                  Variant(3, "array", -1, "tuple", <<F(0, FALSE, -1, "u8")>>)>>)
 IO  == Enum("array", -1, TRUE, <<Variant(0, "array", -1, "unit", <<>>), Variant(1, "array", -1, "unit", <<>>)>>)
 IOx == Enum("array", -1, TRUE, <<Variant(0, "array", -1, "unit", <<>>), Variant(1, "array", -1, "unit", <<>>), Variant(7, "array", -1, "unit", <<>>)>>)
 Nested(ty) == CASE ty = "inA" -> InA [] ty = "inM" -> InM [] ty = "e2" -> E2 [] ty = "e2x" -> E2x [] ty = "e2u" -> E2u [] ty = "io" -> IO [] ty = "iox" -> IOx
-                [] ty = "e2m" -> E2m [] ty = "e2mu" -> E2mu [] ty = "e2a" -> E2a [] ty = "e2au" -> E2au
-IsNestedTy(ty) == ty \in {"inA", "inM", "e2", "e2x", "e2u", "io", "iox", "e2m", "e2mu", "e2a", "e2au"}
-IsEnumTy(ty) == ty \in {"e2", "e2x", "e2u", "io", "iox", "e2m", "e2mu", "e2a", "e2au"}
+                [] ty = "e2m" -> E2m [] ty = "e2mu" -> E2mu [] ty = "e2a" -> E2a [] ty = "e2au" -> E2au [] ty = "eu" -> EU [] ty = "eux" -> EUx
+IsNestedTy(ty) == ty \in {"inA", "inM", "e2", "e2x", "e2u", "io", "iox", "e2m", "e2mu", "e2a", "e2au", "eu", "eux"}
+IsEnumTy(ty) == ty \in {"e2", "e2x", "e2u", "io", "iox", "e2m", "e2mu", "e2a", "e2au", "eu", "eux"}
 
 (* text and byte-string field types.  "str" String, "bytes" Vec<u8> with = minicbor::bytes; the others borrow from the    *)
 (* decoding input (C09): "bstr" &str, "bslice" &ByteSlice, "bu8" &[u8] with = minicbor::bytes (all three also implicitly, *)
 (* whatever the n / b spelling), "cowb" Cow<str> marked b (decoded as Cow::Borrowed); "cown" Cow<str> marked n owns.      *)
 TextTys  == {"str", "bstr", "cowb", "cown"}
 BytesTys == {"bytes", "bslice", "bu8", "cowbu8"}          \* "cowbu8": Cow<[u8]> marked b, with = minicbor::bytes (decoded as Cow::Borrowed)
+(* "pcd" "pce" "pcb" "pcw": an optional u8 (Option<u8>, or by osp Box<Option<u8>> / a type alias of it) with a user codec   *)
+(* that has no nil of its own and simply forwards to the type's own impls - given for decoding only (decode_with), for   *)
+(* encoding only (encode_with), function by function, or as a module (with).  The documentation: a field with a codec is   *)
+(* optional if its type is spelled Option<..> (absent = None), otherwise it takes part in the format like any mandatory  *)
+(* field - always written, here as null when it holds None - and both directions agree on that whichever half is custom. *)
+CodTys == {"pcd", "pce", "pcb", "pcw"}
 MustBorrow(ty) == ty \in {"bstr", "bslice", "bu8", "cowb", "cowbu8"}
 (* "any": a field whose value a newer writer produced by means unknown to this specification - any well-formed item.  Only   *)
 (* writer schemas have it, and only readers that do not know the field ever see it: it must be ignored whatever it is (C10). *)
@@ -106,6 +116,7 @@ EncFieldF(f, x, fr) ==
      [] f.ty \in TextTys  -> PreferredHead(3, FromNat(Len(x.b))) \o x.b
      [] f.ty \in BytesTys -> PreferredHead(2, FromNat(Len(x.b))) \o x.b
      [] f.ty = "cu"    -> Uint(x.n + 1000)
+     [] f.ty \in CodTys -> (IF x.some THEN Uint(x.n) ELSE <<246>>)
      [] f.ty = "any"   -> AnyItems[x.n]
      [] OTHER          -> DocEncP(Nested(f.ty), x.sub, [NoPt EXCEPT !.fr = fr])
 Live(fields) == { i \in 1..Len(fields) : ~fields[i].skip }
@@ -174,7 +185,7 @@ ProjField(g, wf, wv, i) ==
         IF r[1] = "ok" THEN <<"ok", FV(TRUE, 0, <<>>, r[2])>>
         ELSE IF r[1] = "unknown" /\ g.opt THEN <<"ok", None>>           \* unknown variant in an optional field
         ELSE <<"err">>
-   ELSE <<"ok", FV(TRUE, wv[i].n, wv[i].b, <<>>)>>
+   ELSE <<"ok", FV(wv[i].some, wv[i].n, wv[i].b, <<>>)>>
 ProjFields(rf, wf, wv) ==
    LET RECURSIVE Go(_, _)
        Go(j, acc) == IF j > Len(rf) THEN <<"ok", acc>>
